@@ -447,7 +447,15 @@ func (s *Sched) pick(self *Thread) *Thread {
 	for {
 		list, re := s.enabledThreads(self)
 		if len(list) == 0 {
-			if s.fireTimer() {
+			alive := false
+			for _, t := range s.threads {
+				if !t.done {
+					alive = true
+					break
+				}
+			}
+			// a timer nobody can observe any more is not an event
+			if alive && s.fireTimer() {
 				continue
 			}
 			return nil
